@@ -714,7 +714,7 @@ func runCli(c *Ctx, tree *SrcTree) error {
 		return err
 	}
 	_, fullErr := os.Stat("/dev/full")
-	fam := c.Rep.Family("cli", "the `nfpm package` binary built from the tree, run in a fresh directory with a hand-written nfpm.yaml, exhaustively for 5 packagers x {content source that does not exist, the same with disable_globbing (the failure then happens after the target was created), script that does not exist, -t target that is a symlink to /dev/full (every write fails with ENOSPC), invalid setting (deb/rpm: compression bogus; apk/archlinux: platform darwin; ipk: content type bogus)}: exit status must be non-zero, the output besides the progress lines must be non-empty (and name the missing file), and nothing may exist at the target path afterwards (Lstat fails). Positive control per packager: the valid configuration exits 0 and creates the target. non-trivial = always")
+	fam := c.Rep.Family("cli", "the `nfpm package` binary built from the tree, run in a fresh directory with a hand-written nfpm.yaml, exhaustively for 5 packagers x {content source that does not exist, the same with disable_globbing (the failure then happens after the target was created), script that does not exist, -t target that is a symlink to /dev/full (every write fails with ENOSPC), invalid setting; every case except /dev/full also with the target given as an existing directory and omitted (nothing but nfpm.yaml and that directory may exist afterwards) (deb/rpm: compression bogus; apk/archlinux: platform darwin; ipk: content type bogus)}: exit status must be non-zero, the output besides the progress lines must be non-empty (and name the missing file), and nothing may exist at the target path afterwards (Lstat fails). Positive control per packager: the valid configuration exits 0 and creates the target. non-trivial = always")
 	fam.Exhaustive = true
 	scratch := filepath.Join(c.Tmp, "c06cli")
 	if err := os.MkdirAll(scratch, 0o755); err != nil {
@@ -802,6 +802,48 @@ func runCli(c *Ctx, tree *SrcTree) error {
 			}
 			if len(fam.Samples) < 3 && code != 0 && f == Formats[len(fam.Samples)%len(Formats)] {
 				fam.Sample(map[string]any{"packager": f, "case": cs.name, "exit": code, "output": out})
+			}
+		}
+		// the same failures with the other target spellings: an existing directory (the package would be
+		// created inside it under its conventional name) and no target at all (conventional name in the
+		// working directory) – nothing may be left behind there either
+		for _, cs := range cases {
+			if cs.devFull {
+				continue
+			}
+			for _, style := range []string{"dir", "omitted"} {
+				dir, err := fresh()
+				if err != nil {
+					return err
+				}
+				if err := os.WriteFile(filepath.Join(dir, "nfpm.yaml"), []byte(cs.yaml), 0o644); err != nil {
+					return err
+				}
+				args := []string{"-p", f}
+				want := []string{"nfpm.yaml"}
+				if style == "dir" {
+					if err := os.Mkdir(filepath.Join(dir, "outdir"), 0o755); err != nil {
+						return err
+					}
+					args = append(args, "-t", "outdir")
+					want = append(want, "outdir/")
+				}
+				code, out := runNfpm(bin, dir, args...)
+				fam.Eval(f+"|"+cs.name+"|target-"+style, true)
+				fam.Count(cs.name + "/target-" + style)
+				listing := cliListing(dir)
+				in := map[string]any{"packager": f, "case": cs.name, "target": style, "config": cs.yaml,
+					"args": append([]string{"package"}, args...), "exit": code, "output": out, "listing_after": listing}
+				if code == 0 {
+					c.Rep.Find(report.Finding{Property: "C06", Family: "cli", Shape: "cli:exit-zero-on-failure:" + cs.name,
+						What: fmt.Sprintf("%s: `nfpm package` (target %s) exits 0 although packaging cannot be completed (%s)", f, style, cs.name), Input: in})
+				}
+				sort.Strings(listing)
+				sort.Strings(want)
+				if strings.Join(listing, "\x00") != strings.Join(want, "\x00") {
+					c.Rep.Find(report.Finding{Property: "C06", Family: "cli", Shape: "cli:target-left-behind:" + cs.name,
+						What: fmt.Sprintf("%s: after the failed `nfpm package` (target %s, %s, exit %d) the directory holds %v, expected %v", f, style, cs.name, code, listing, want), Input: in})
+				}
 			}
 		}
 		// positive control
@@ -949,6 +991,11 @@ func CliTargetCases(c *Ctx, fam *report.Family, bin string) {
 			expect("existing-dir", v, f, func(d string) plan {
 				_ = os.Mkdir(filepath.Join(d, "outdir"), 0o755)
 				return plan{args: []string{"-p", f, "-t", "outdir"}, want: filepath.Join(d, "outdir", conv), extra: []string{"outdir/"}}
+			})
+			// a directory whose name looks like it has an extension is still a directory
+			expect("existing-dir", v, f, func(d string) plan {
+				_ = os.MkdirAll(filepath.Join(d, "dist", "release-1.2"), 0o755)
+				return plan{args: []string{"-p", f, "-t", "dist/release-1.2"}, want: filepath.Join(d, "dist", "release-1.2", conv), extra: []string{"dist/", "dist/release-1.2/"}}
 			})
 			expect("existing-dir", v, f, func(d string) plan {
 				abs := filepath.Join(d, "abs out")
